@@ -117,6 +117,9 @@ INPLACE_CORES = [
     ("chacha20_encrypt_bytes", "chacha20/ref/", "c", "m"), ("chacha20_encrypt_bytes", "chacha20_dolbeau-ssse3", "c", "m"),
     ("chacha20_encrypt_bytes", "chacha20_dolbeau-avx2", "c", "m"), ("salsa20_encrypt_bytes", "salsa20_xmm6int-avx2", "c", "m"),
     ("salsa20_encrypt_bytes", "salsa20_xmm6int-sse2", "c", "m"), ("stream_ref_xor_ic", "salsa20/ref/", "c", "m"),
+    # AEGIS block functions (every compiled backend includes the common header): dst is stored before the state update
+    ("aegis128l_enc", "crypto_aead/aegis128l/", "dst", "src"), ("aegis128l_dec", "crypto_aead/aegis128l/", "dst", "src"),
+    ("aegis256_enc", "crypto_aead/aegis256/", "dst", "src"), ("aegis256_dec", "crypto_aead/aegis256/", "dst", "src"),
 ]
 
 
@@ -125,28 +128,25 @@ def hazard_rule(ctx, prog, chk):
     hz = hazard.Hazards(ctx, prog)
     nfn = nacc = 0
     for name, usub, dname, sname_ in INPLACE_CORES:
-        fns = [f for f in prog.functions() if f.name == name and usub in f.unit and not f.decl]
-        if not fns:
-            continue
-        fn = fns[0]
-        dst, src = fn.param_index(dname), fn.param_index(sname_)
-        if dst is None or src is None:
-            raise AnalysisBroken("R13.2: %s has no parameters named %s / %s" % (name, dname, sname_))
-        acc, bad = hz.hazards(fn, dst, src)
-        nw = sum(1 for a in acc if a[1] == "W")
-        nr = sum(1 for a in acc if a[1] == "R")
-        if not nw or not nr:
-            continue
-        nfn += 1
-        nacc += nw + nr
-        for w, r in bad:
-            chk.ob("R13.2", fn, "no input read follows an overlapping output write in the same loop generation", False,
-                   loc=fn.loc(r[0]), detail="%s at %s writes out[%s%+d .. %+d); %s at %s then reads in[%s%+d ..%s): with in == out it "
-                   "reads the function's own output" % (w[5], fn.loc(w[0]), _base(fn, w[2]), w[3], w[4], r[5], fn.loc(r[0]),
-                                                         _base(fn, r[2]), r[3], "" if r[4] is None else " %+d" % r[4]),
-                   key="R13.2 %s %s" % (name, usub))
-        chk.ob("R13.2", fn, "%d output writes and %d input reads in linear form: no read-after-write hazard" % (nw, nr), not bad,
-               key="R13.2 %s %s summary" % (name, usub))
+      for fn in [f for f in prog.functions() if f.name == name and usub in f.unit and not f.decl]:
+          dst, src = fn.param_index(dname), fn.param_index(sname_)
+          if dst is None or src is None:
+              raise AnalysisBroken("R13.2: %s has no parameters named %s / %s" % (name, dname, sname_))
+          acc, bad = hz.hazards(fn, dst, src)
+          nw = sum(1 for a in acc if a[1] == "W")
+          nr = sum(1 for a in acc if a[1] == "R")
+          if not nw or not nr:
+              continue
+          nfn += 1
+          nacc += nw + nr
+          for w, r in bad:
+              chk.ob("R13.2", fn, "no input read follows an overlapping output write in the same loop generation", False,
+                     loc=fn.loc(r[0]), detail="%s at %s writes out[%s%+d .. %+d); %s at %s then reads in[%s%+d ..%s): with in == out it "
+                     "reads the function's own output" % (w[5], fn.loc(w[0]), _base(fn, w[2]), w[3], w[4], r[5], fn.loc(r[0]),
+                                                           _base(fn, r[2]), r[3], "" if r[4] is None else " %+d" % r[4]),
+                     key="R13.2 %s %s" % (name, fn.unit.split("/")[-1]))
+          chk.ob("R13.2", fn, "%d output writes and %d input reads in linear form: no read-after-write hazard" % (nw, nr), not bad,
+                 key="R13.2 %s %s summary" % (name, fn.unit.split("/")[-1]))
     chk.floor("R13.2", "in-place cores with linearised accesses", nfn, 4)
     chk.floor("R13.2", "linearised accesses", nacc, 30)
 
